@@ -652,16 +652,26 @@ def _replay_bytes(name, n):
     return out[:n]
 
 
-def blob(name, lo=0, hi=None, excludes=b''):
-    """fresh opaque byte string of symbolic length in [lo, hi]; declared as input '<name>_len'"""
+def blob(name, lo=0, hi=None, excludes=b'', declare=0):
+    """fresh opaque byte string of symbolic length in [lo, hi]; declared as input '<name>_len'.
+    declare=K additionally declares the first K bytes as inputs '<name>[i]' so that a counterexample
+    carries the bytes the code looked at"""
     L = core.symint(name + '_len', lo, hi)
-    if core._rp() is not None:
+    r = core._rp()
+    if r is not None:
         L = max(0, min(L, 1 << 24))
-        data = _replay_bytes(name, L)
+        data = bytearray(_replay_bytes(name, L))
         for ch in excludes:
-            data = data.replace(_bytes([ch]), b'_')
-        return data, L
+            data = bytearray(_bytes(data).replace(_bytes([ch]), b'_'))
+        for i in range(declare):
+            v = r.model.get('%s[%d]' % (name, i))
+            r.inputs['%s[%d]' % (name, i)] = True
+            if v is not None and i < L:
+                data[i] = builtins.int(v) & 255
+        return _bytes(data), L
     b = Blob(name, _zi(L), meta={'excludes': excludes})
+    for i in range(declare):
+        core.declare_input('%s[%d]' % (name, i), b.byte(z3.IntVal(i)))
     return mk([('view', b, z3.IntVal(0), _zi(L))]), L
 
 
@@ -696,6 +706,35 @@ def full_view_blob(x):
         b = ps[0][1]
         if _simp(ps[0][2]).eq(z3.IntVal(0)) and (_simp(ps[0][3]).eq(_simp(b.length)) or core.prove(ps[0][3] == b.length)):
             return b
+    return None
+
+
+def decide_full_blob(x, want=None):
+    """like full_view_blob but *decides* (forks) instead of requiring a proof: x is blob b exactly
+    iff its first view covers all of b and every other piece is empty.  want(blob) filters candidates."""
+    if not isrope(x):
+        return None
+    ps = pieces_of(x)
+    cand = None
+    for i, p in enumerate(ps):
+        if p[0] == 'view' and (want is None or want(p[1])):
+            cand = (i, p)
+            break
+    if cand is None:
+        return None
+    i, p = cand
+    conds = [SxInt.wrap(p[2]) == 0, SxInt.wrap(p[3]) == SxInt.wrap(p[1].length)]
+    for j, q in enumerate(ps):
+        if j == i:
+            continue
+        n = _plen(q)
+        if _isinstance(n, builtins.int):
+            if n:
+                return None
+        else:
+            conds.append(n == 0)
+    if bool(core.And(*conds)):
+        return p[1]
     return None
 
 
